@@ -59,7 +59,7 @@ def _load_test(obj):
     test.properties.update(md.properties)
     test.links.extend(md.links)
     test.disabled = md.disabled
-    test.hidden = md.condition and not md.condition(obj)
+    test.hidden = md.condition is not None and not md.condition(obj)
     test.rank = md.rank
     test.dependencies.extend(md.dependencies)
 
@@ -165,7 +165,7 @@ def load_suite_from_class(class_: Any) -> Suite:
     suite.links.extend(md.links)
     suite.rank = md.rank
     suite.disabled = md.disabled
-    suite.hidden = md.condition and not md.condition(suite_obj)
+    suite.hidden = md.condition is not None and not md.condition(suite_obj)
 
     try:
         _check_test_tree_node_types(suite)
@@ -214,7 +214,7 @@ def load_suite_from_module(mod: Any) -> Suite:
     suite.properties.update(suite_info.get("properties", {}))
     suite.links.extend(map(_normalize_link, suite_info.get("links", [])))
     suite.rank = suite_info.get("rank", _get_metadata_next_rank())
-    suite.hidden = suite_condition and not suite_condition(mod)
+    suite.hidden = suite_condition is not None and not suite_condition(mod)
 
     try:
         _check_test_tree_node_types(suite)
